@@ -733,7 +733,19 @@ def _lb_composite(case, vio):
             and vio["bucket"].startswith(("lb_", "crash:lb", "hang:lb")))
 
 
+def _lb_union_current(case, vio):
+    """a union at the top of a simple Form where some tag >= the number of entries: UnionArrayBuilder::snapshot sizes the
+    `current` scratch index by len(tags) instead of the number of contents"""
+    if case.get("kind") != "lb" or case["T"][0] != "union" or not lb_simple(case["T"]):
+        return False
+    if not vio["bucket"].startswith(("lb_invalid_snapshot", "lb_value", "crash:lb")):
+        return False
+    tags = [gen.member_of(case["T"], v) for v in _lb_decode(case["values"])]
+    return bool(tags) and max(tags) >= len(tags)
+
+
 KNOWN = {
+    "layoutbuilder_union_current_size": _lb_union_current,
     # LayoutBuilder: a Form with a complex128 leaf is accepted by the Form parser but its AwkwardForth program declares
     # "output ... complex128", a dtype ForthMachine does not know: the constructor raises
     "layoutbuilder_complex128": _lb_complex,
